@@ -294,7 +294,7 @@ pub fn enabled_ops(s: &State, n_max: usize, a_max: usize, profile: &crate::explo
         v.push(Op::Clear);
     }
     if profile.value_ops {
-        for k in [0usize, 1, 8] {
+        for k in [0usize, 1, 8, usize::MAX, usize::MAX / 2 + 1] {
             v.push(Op::Reserve(k));
         }
     }
@@ -307,6 +307,12 @@ pub fn enabled_ops(s: &State, n_max: usize, a_max: usize, profile: &crate::explo
         }
         if room(3) {
             for &x in &live {
+                v.push(Op::TreeNest(x));
+            }
+        }
+        // anchored at a removed node the literal must be refused like append_value on it
+        for x in 0..cnt {
+            if !live.contains(&x) {
                 v.push(Op::TreeNest(x));
             }
         }
@@ -357,6 +363,8 @@ pub fn step(s: &State, op: Op, cfg: &JudgeCfg) -> StepResult {
         Succeeds,
         Refuses(Reasons),
         Panics,
+        /// reserve() of more than can exist: documented to panic; must not return without the room
+        Overflows,
     }
     let expect = match op {
         Op::Insert(ins, a, b) => {
@@ -367,7 +375,8 @@ pub fn step(s: &State, op: Op, cfg: &JudgeCfg) -> StepResult {
                 Expect::Succeeds
             }
         }
-        Op::AppendValue(pn) if !m.is_live(pn) => Expect::Panics,
+        Op::AppendValue(pn) | Op::TreeNest(pn) if !m.is_live(pn) => Expect::Panics,
+        Op::Reserve(k) if k > isize::MAX as usize / 2 => Expect::Overflows,
         _ => Expect::Succeeds,
     };
     let removed_involved = match &expect {
@@ -443,6 +452,24 @@ pub fn step(s: &State, op: Op, cfg: &JudgeCfg) -> StepResult {
                 fails.extend(crate::judges::j01(&arena, &t));
                 fails.extend(crate::judges::j02(&t));
                 fails.extend(crate::judges::removed_links(&t));
+            }
+            // a removal that returned: every id it removed reports removed (C06), whatever else is wrong
+            if let (Op::Remove(x) | Op::RemoveSubtree(x), Outcome::Unit) = (op, &outcome) {
+                let gone: Vec<usize> = if matches!(op, Op::Remove(_)) { vec![x] } else { m.subtree(x) };
+                for y in gone {
+                    if ops::guarded(|| s.cur[y].is_removed(&arena)) != Ok(true) {
+                        fails.push(mk(
+                            C06 | C04 | C12,
+                            "is_removed",
+                            false,
+                            &op,
+                            class,
+                            "removed-id-reports-live",
+                            format!("after the call the id {} of a node it removed reports is_removed() == false", fmt_id(Some(s.cur[y]))),
+                        ));
+                        break;
+                    }
+                }
             }
             return StepResult {
                 outcome,
@@ -550,6 +577,22 @@ pub fn step(s: &State, op: Op, cfg: &JudgeCfg) -> StepResult {
             ));
         }
         (Expect::Panics, Outcome::Panic(_)) => {}
+        (Expect::Overflows, Outcome::Panic(_)) => {}
+        (Expect::Overflows, o) => {
+            if let Op::Reserve(k) = op {
+                if arena.count().checked_add(k).map(|want| arena.capacity() < want).unwrap_or(true) {
+                    fails.push(mk(
+                        C13,
+                        "reserve",
+                        false,
+                        &op,
+                        class,
+                        "impossible-reservation-returned-normally",
+                        format!("reserve({k}) on an arena with {} nodes returned ({}) with capacity {}", arena.count(), o.short(), arena.capacity()),
+                    ));
+                }
+            }
+        }
         (Expect::Panics, o) => fails.push(mk(
             C12,
             "outcome",
@@ -558,7 +601,7 @@ pub fn step(s: &State, op: Op, cfg: &JudgeCfg) -> StepResult {
             class,
             "removed-parent-accepted",
             format!(
-                "append_value on a removed node did not panic (it returned {})",
+                "append_value / tree! on a removed node did not panic (it returned {})",
                 o.short()
             ),
         )),
@@ -955,42 +998,121 @@ pub fn step(s: &State, op: Op, cfg: &JudgeCfg) -> StepResult {
         }
     }
 
-    // ---- a removal whose payload destructor panics (the call unwinds from the middle): every *other*
-    // node is left either as before the call, or as after it (for remove_subtree also: as after detach)
-    if cfg.target & C04 != 0 && succeeded {
-        if let Op::Remove(x) | Op::RemoveSubtree(x) = op {
-            let id = s.cur[x];
-            let mut tb = s.arena.clone();
-            payload::set_bomb(Some(m.payload[x]));
-            let r = ops::guarded(|| if matches!(op, Op::Remove(_)) { id.remove(&mut tb) } else { id.remove_subtree(&mut tb) });
-            payload::set_bomb(None);
-            if r.is_err() {
-                if let Ok(t) = ops::guarded(|| obs::observe_tolerant(&tb)) {
-                    let others = |a: &[SlotObs], b: &[SlotObs]| {
-                        a.len() == b.len() && a.iter().zip(b.iter()).enumerate().all(|(y, (p, q))| y == x || (p.removed == q.removed && p.links == q.links && p.payload == q.payload))
-                    };
-                    let mut accepted = others(&t, &s.obs) || others(&t, &obs1);
-                    if !accepted && matches!(op, Op::RemoveSubtree(_)) {
-                        let mut d = s.arena.clone();
-                        if ops::guarded(|| id.detach(&mut d)).is_ok() {
-                            if let Ok(od) = ops::guarded(|| obs::observe(&d)) {
-                                accepted = others(&t, &od);
-                            }
+    // ---- clone_from during which a payload's clone() panics: whatever mixture the overwritten arena
+    // holds afterwards, it is an arena — observable, links consistent, and it can hand out its free
+    // slots and grow without panicking
+    if cfg.target & C13 != 0 {
+        'cb: for (from, to, dir) in [(&s.arena, &arena, "successor.clone_from(&predecessor)"), (&arena, &s.arena, "predecessor.clone_from(&successor)")] {
+            let vals: Vec<u8> = from.iter().filter(|n| !n.is_removed()).filter_map(|n| ops::guarded(|| n.get().0).ok()).collect();
+            for v in vals {
+                let mut x = to.clone();
+                payload::set_clone_bomb(Some(v));
+                let r = ops::guarded(|| x.clone_from(from));
+                payload::set_clone_bomb(None);
+                if r.is_ok() {
+                    continue;
+                }
+                let sane = ops::guarded(|| {
+                    let t = obs::observe(&x);
+                    let mut bad: Vec<String> = crate::judges::j01(&x, &t).into_iter().chain(crate::judges::j02(&t)).map(|f| f.detail).collect();
+                    let free = t.iter().filter(|o| o.removed).count();
+                    let count0 = x.count();
+                    for k in 0..=free {
+                        let live_before: Vec<bool> = x.iter().map(|n| !n.is_removed()).collect();
+                        let id = x.new_node(Payload(210 + k as u8));
+                        let slot = slot_of(id);
+                        if slot < live_before.len() && live_before[slot] {
+                            bad.push(format!("allocation {} handed out the occupied slot {}", k + 1, slot + 1));
                         }
                     }
-                    if !accepted {
-                        fails.push(mk(
-                            C04,
-                            "unwound-removal",
-                            false,
-                            &op,
-                            class,
-                            "other-nodes-left-half-way",
-                            format!(
-                                "with a payload whose destructor panics the call unwinds and leaves the other nodes neither as before nor as after the call: {} (before: {}; after a normal call: {})",
-                                fmt_obs(&t), fmt_obs(&s.obs), fmt_obs(&obs1)
-                            ),
-                        ));
+                    if x.count() > count0 + free + 1 {
+                        bad.push(format!("the arena grew from {count0} to {} slots for {} allocations with {free} removed slots", x.count(), free + 1));
+                    }
+                    bad
+                });
+                let why = match sane {
+                    Ok(b) if b.is_empty() => continue,
+                    Ok(b) => b.join("; "),
+                    Err(m) => format!("using the arena afterwards panicked: {m}"),
+                };
+                fails.push(mk(
+                    C13,
+                    "clone_from",
+                    false,
+                    &op,
+                    class,
+                    "unwound-clone_from-leaves-a-broken-arena",
+                    format!("{dir} with a payload ({v}) whose clone() panics: {why}; source {:?}, destination before {:?}", from, to),
+                ));
+                break 'cb;
+            }
+        }
+    }
+
+    // ---- a removal during which a payload destructor panics (the call unwinds from the middle): the
+    // nodes *outside* what is being removed are left as after the call (for remove_subtree: also as after
+    // detach), or the call has not started (target and outside untouched) — never half-way; and they stay
+    // a lawful forest when the slots the call freed are recycled. The bomb sits on the target itself and,
+    // for remove_subtree, on each descendant in turn.
+    if cfg.target & (C04 | C10) != 0 && succeeded {
+        if let Op::Remove(x) | Op::RemoveSubtree(x) = op {
+            let id = s.cur[x];
+            let gone: Vec<usize> = if matches!(op, Op::Remove(_)) { vec![x] } else { m.subtree(x) };
+            let after_detach: Option<Vec<SlotObs>> = if matches!(op, Op::RemoveSubtree(_)) {
+                let mut d = s.arena.clone();
+                ops::guarded(|| id.detach(&mut d)).ok().and_then(|_| ops::guarded(|| obs::observe(&d)).ok())
+            } else {
+                None
+            };
+            for &y in &gone {
+                let mut tb = s.arena.clone();
+                payload::set_bomb(Some(m.payload[y]));
+                let r = ops::guarded(|| if matches!(op, Op::Remove(_)) { id.remove(&mut tb) } else { id.remove_subtree(&mut tb) });
+                payload::set_bomb(None);
+                if r.is_ok() {
+                    continue;
+                }
+                let Ok(t) = ops::guarded(|| obs::observe_tolerant(&tb)) else { continue };
+                let outside = |a: &[SlotObs], b: &[SlotObs]| {
+                    a.len() == b.len() && a.iter().zip(b.iter()).enumerate().all(|(z, (p, q))| gone.contains(&z) || (p.removed == q.removed && p.links == q.links && p.payload == q.payload))
+                };
+                let untouched = outside(&t, &s.obs) && gone.iter().all(|&z| !t[z].removed && t[z].links == s.obs[z].links);
+                let accepted = outside(&t, &obs1) || after_detach.as_ref().map(|d| outside(&t, d)).unwrap_or(false) || untouched;
+                if !accepted {
+                    fails.push(mk(
+                        C04 | C10,
+                        "unwound-removal",
+                        false,
+                        &op,
+                        class,
+                        "other-nodes-left-half-way",
+                        format!(
+                            "with a destructor that panics for the payload of slot {} the call unwinds and leaves the nodes outside what is removed neither as before nor as after the call: {} (before: {}; after a normal call: {})",
+                            y + 1, fmt_obs(&t), fmt_obs(&s.obs), fmt_obs(&obs1)
+                        ),
+                    ));
+                    break;
+                }
+                if cfg.target & C10 != 0 && s.obs.len() <= 10 {
+                    // recycle what the call freed, then the double-ended law for the nodes outside
+                    for k in 0..3u8 {
+                        let _ = ops::guarded(|| tb.new_node(Payload(200 + k)));
+                    }
+                    if let Ok(t2) = ops::guarded(|| obs::observe_tolerant(&tb)) {
+                        let keep: Vec<usize> = (0..s.obs.len()).filter(|z| !gone.contains(z) && m.is_live(*z)).collect();
+                        let law = crate::free::c10_law_on(&tb, &t2, Some(&keep));
+                        if let Some(f) = law.into_iter().next() {
+                            fails.push(mk(
+                                C10,
+                                "unwound-removal",
+                                false,
+                                &op,
+                                class,
+                                "outside-nodes-break-the-law-after-recycling",
+                                format!("after the call unwound (destructor of slot {} panics) and three allocations: {}", y + 1, f.detail),
+                            ));
+                            break;
+                        }
                     }
                 }
             }
@@ -1049,7 +1171,7 @@ pub fn step(s: &State, op: Op, cfg: &JudgeCfg) -> StepResult {
 
     // ---- C13 judges for reserve ------------------------------------------------------------------
     if let Op::Reserve(k) = op {
-        if arena.capacity() < arena.count() + k {
+        if arena.count().checked_add(k).map(|want| arena.capacity() < want).unwrap_or(false) && expect != Expect::Overflows {
             fails.push(mk(
                 C13,
                 "reserve",
